@@ -463,6 +463,8 @@ def decide(pid, tier, seed, replay, t0):
         tr_status.update(translate_obj4.main())
         import translate_obj5
         tr_status.update(translate_obj5.main())
+        import translate_obj6
+        tr_status.update(translate_obj6.main())
         mod = importlib.import_module("props." + pid.lower())
         prop_modules = [m for m in mod.LEAN_MODULES
                         if os.path.exists(os.path.join(LEAN, m.replace(".", "/") + ".lean"))]
